@@ -333,6 +333,54 @@ func zzC17ClientIter() {
 	vReach("end")
 }
 
+// H4b: the same equivalence against ANY pager, not only this SDK's server: pages of any size — an empty page that
+// still carries a cursor included (a server or middleware that filters after cutting the page, the client's own
+// tool filter) — and the cursor each page names. Manual paging follows cursors until the empty one; so must the iterator.
+func zzC17IterAnyPager() {
+	npages := 1 + vChoice("pages", 3)
+	sizes := make([]int, npages)
+	for i := range sizes {
+		sizes[i] = vChoice("pageSize", 3)
+	}
+	name := func(pg, i int) string { return string([]byte{'p', byte('0' + pg), byte('a' + i)}) }
+	asked := []string{}
+	fetch := func(ctx context.Context, p *ListPromptsParams) (*ListPromptsResult, error) {
+		asked = append(asked, p.Cursor)
+		pg := 0
+		if p.Cursor != "" {
+			pg = int(p.Cursor[1] - '0')
+		}
+		res := &ListPromptsResult{}
+		for i := 0; i < sizes[pg]; i++ {
+			res.Prompts = append(res.Prompts, &Prompt{Name: name(pg, i)})
+		}
+		if pg+1 < npages {
+			res.NextCursor = string([]byte{'c', byte('0' + pg + 1)})
+		}
+		return res, nil
+	}
+	var want []string
+	for pg := 0; pg < npages; pg++ {
+		for i := 0; i < sizes[pg]; i++ {
+			want = append(want, name(pg, i))
+		}
+	}
+	var got []string
+	for p, err := range paginate(context.Background(), &ListPromptsParams{}, fetch, func(r *ListPromptsResult) []*Prompt { return r.Prompts }) {
+		vAssert(err == nil, "C17.iter.err2")
+		got = append(got, p.Name)
+	}
+	vAssert(len(got) == len(want), "C17.iter.same-sequence-as-manual-paging-against-any-pager")
+	for i := range want {
+		vAssert(got[i] == want[i], "C17.iter.same-sequence-as-manual-paging-against-any-pager")
+	}
+	vAssert(len(asked) == npages, "C17.iter.every-page-fetched-exactly-once")
+	for pg := 1; pg < npages; pg++ {
+		vAssert(asked[pg] == string([]byte{'c', byte('0' + pg)}), "C17.iter.follows-the-cursor-each-page-names")
+	}
+	vReach("end")
+}
+
 // H5: all four feature kinds through the real server list functions AND the real client iterators
 // (ClientSession.Tools/Resources/ResourceTemplates/Prompts). The transport between them is cut away: the session's
 // List* methods are replaced by stubs that hand the request to the server's list function (overrides in the spec),
